@@ -8,8 +8,56 @@ def run(R):
         "every panic-capable, wrapping or truncating construct reachable from the parsing entry points is "
         "mechanically discharged, discharged by a tabled reason (optionally with a re-proved guard), a known finding, or reported")
     rules_sites.recursion_rule(R, "C14.recursion", "PARSE")
+    _eof_exits(R)
     R.assume("recursion depth of the expression parser / converter is not bounded by this analysis (stack exhaustion on deeply nested input is outside the technique)")
 
 
 def run_thorough(R):
     rules_sites.run_thorough_release(R, "C14.sites", "PARSE")
+
+
+def _eof_exits(R):
+    """C14.eof: tokenizing terminates - a loop that consumes characters must leave when there are none left.  Every loop of the tokenizer
+    whose body advances the character stream (next_char / Peekable::next) has an exit taken on the `None` answer of an advance or a
+    peek made in that loop (a `while current != Some('\\n') { current = next_char() }` spins forever at the end of the text)."""
+    import re
+    from .prog import short
+    from . import flow as F, pathrules as PR
+    P = R.prog
+    R.rule("C14.eof", "every loop of the tokenizer that advances the character stream leaves the loop on the `None` (end of text) answer "
+                      "of a next_char / next / peek call made inside it")
+    ADV = re.compile(r"TokenizerState::next_char$|Peekable<.*>.*Iterator>::next$|str::iter::Chars<'a> as core::iter::traits::iterator::Iterator>::next$|"
+                     r"adapters::peekable::Peekable<I> as core::iter::traits::iterator::Iterator>::next$")
+    LOOK = re.compile(r"TokenizerState::next_char$|Peekable::peek$|Iterator>::next$|Peekable::next_if\w*$")
+    fam = [g for g in P.fns.values() if g.target == "lib" and g.spath.startswith("sqlgrep::parsing::tokenizer::tokenize") and not g.derived]
+    n = 0
+    for g in fam:
+        for hdr, body in sorted(g.loops().items()):
+            adv = [c for c in g.calls if c.bb in body and ADV.search(short(c.name))]
+            if not adv:
+                continue
+            n += 1
+            ok = False
+            for c in g.calls:
+                if c.bb not in body or not LOOK.search(short(c.name)):
+                    continue
+                gd = PR.discr_guard(g, c, "Some")
+                if gd is not None and any(t not in body or g.blocks[t]["term"]["k"] == "return" for t in (gd[2] or [])):
+                    ok = True
+                # `if x.is_none() { break }` / `while x.is_some()` on the answer
+                for c2 in g.calls:
+                    if c2.bb in body and re.search(r"Option::(is_none|is_some)$", short(c2.name)) and c2.args and \
+                            any(o.kind == "call" and o.call is c for o in F.origins(g, c2.args[0], depth=8)):
+                        bg = PR.bool_guard(g, c2)
+                        if bg is not None:
+                            leave = bg[1] if short(c2.name).endswith("is_none") else bg[2]
+                            if leave not in body:
+                                ok = True
+            key = "%s|loop@%d" % (g.spath.split("::")[-1], len([1 for h2 in sorted(g.loops()) if h2 < hdr]))
+            if ok:
+                R.ok("C14.eof", key, "leaves on the None answer of an advance / peek", g.loc(hdr), nontrivial=(n <= 2))
+            else:
+                R.violation("C14.eof", key, "a loop in %s consumes characters (%s) but has no exit on the end of the text (no branch on the None "
+                            "answer of next_char / peek leaves it): on an input that ends inside what the loop skips, parsing never terminates"
+                            % (g.path, short(adv[0].name).split("::")[-1]), [g.loc(hdr)])
+    R.floor("C14.eof", 1)
